@@ -782,6 +782,41 @@ func runC09Config(c *Ctx, named *types.Named) {
 				if consts > 1 {
 					bad = append(bad, "more than one constant can become the capacity: the requested capacity is clamped or replaced")
 				}
+				// the default may only arrive on paths where the caller gave no capacity: a phi edge that carries
+				// a constant must not leave a block reached through the 'argument present' edge
+				if len(ctor.Params) > 0 {
+					maxP := ssa.Value(ctor.Params[len(ctor.Params)-1])
+					var given []*ssa.BasicBlock
+					for _, bb := range ctor.Blocks {
+						if iff, ok := bb.Instrs[len(bb.Instrs)-1].(*ssa.If); ok {
+							if es, ok := lenTest(iff, func(v ssa.Value) bool { return v == maxP }); ok {
+								if ne := bb.Succs[1-es]; len(ne.Preds) == 1 {
+									given = append(given, ne)
+								}
+							}
+						}
+					}
+					var edges func(v ssa.Value, seen map[ssa.Value]bool)
+					edges = func(v ssa.Value, seen map[ssa.Value]bool) {
+						phi, ok := v.(*ssa.Phi)
+						if !ok || seen[v] {
+							return
+						}
+						seen[v] = true
+						for i, e := range phi.Edges {
+							if _, isC := e.(*ssa.Const); isC {
+								pred := phi.Block().Preds[i]
+								for _, g := range given {
+									if g.Dominates(pred) {
+										bad = append(bad, "the default capacity replaces a capacity the caller gave (the constant arrives from "+p.Pos(instrPos(pred.Instrs[len(pred.Instrs)-1]))+", where the argument is present): e.g. NewLRU(0) is not an always-empty cache")
+									}
+								}
+							}
+							edges(e, seen)
+						}
+					}
+					edges(stt.Val, map[ssa.Value]bool{})
+				}
 			}
 		}
 		if n != 1 {
